@@ -251,9 +251,138 @@ class OnDemandInputs(Suite):
         return repr(case)
 
 
+class NameModeNeighbours(Suite):
+    """persistence by config name (parameter_mode=False), two configs whose names are related as texts (one extends
+    the other by `_large`, `.v2`, a digit...), every data class: after both results are stored, inspecting and
+    requesting either one in new chains runs nothing and yields its own value.  Runtime check only."""
+    name = 'name_mode_neighbours'
+    model = ''
+    NAMES = [('model', 'model_large'), ('exp', 'exp.v2'), ('run_1', 'run_10'), ('a', 'a_b_c'), ('base', 'base_errors')]
+
+    def gen(self, rng, tier):
+        from .c05 import KINDS
+        return [dict(kind=k, names=list(n), order=o) for k in KINDS for n in self.NAMES for o in (0, 1)
+                if tier != 'quick' or n in self.NAMES[:2] or k in ('dir', 'continues', 'listnumpy')]
+
+    def run_impl(self, case):
+        import os, shutil, tempfile
+        from pathlib import Path
+        from taskchain import Config
+        from .c05 import make_module, in_child, describe_result
+        kind = case['kind']
+        tmp = tempfile.mkdtemp(prefix='tcverif-c04n-')
+        old = os.getcwd()
+        try:
+            os.chdir(tmp)
+            state = dict(run=1, runs=0, fault=None, bad=None, empty=False, big=False)
+            m = make_module(kind, state)
+            first, second = (case['names'] if case['order'] == 0 else case['names'][::-1])
+
+            def chain(n):
+                return Config(Path('data'), name=n, data={'tasks': [m.Victim]}).chain(parameter_mode=False)
+
+            def scenario():
+                out = {}
+                a = chain(first)['c05:victim']
+                out['v_first'] = describe_result(kind, a.value)
+                b = chain(second)['c05:victim']
+                out['has_second_before'] = bool(b.has_data)
+                _ = b.data_path, chain(second).tasks_df
+                out['v_second'] = describe_result(kind, b.value)
+                out['runs_compute'] = state['runs']
+                for n in (first, second):
+                    ch = chain(n)
+                    _ = ch.tasks_df
+                    t = ch['c05:victim']
+                    out[f'has_{n}'] = bool(t.has_data)
+                    out[f'again_{n}'] = describe_result(kind, t.value)
+                out['runs_total'] = state['runs']
+                return out
+            return in_child(scenario)
+        finally:
+            os.chdir(old)
+            import sys
+            sys.modules.pop('tcv_dyn_c05', None)
+            shutil.rmtree(tmp, ignore_errors=True)
+
+    def oracle(self, case, obs):
+        if 'unexpected_exception' in obs:
+            return f'unexpected exception {obs["unexpected_exception"]}: {obs["text"]}'
+        if 'child_error' in obs:
+            return f'{case}: failed: {obs["child_error"]}'
+        first, second = (case['names'] if case['order'] == 0 else case['names'][::-1])
+        if obs['has_second_before']:
+            return f'{case}: config {second} reports a stored result before anything was computed for it'
+        if obs['runs_compute'] != 2:
+            return f'{case}: computing the two configs ran the task {obs["runs_compute"]} times'
+        for n in (first, second):
+            if not obs[f'has_{n}']:
+                return f'{case}: the stored result of config {n} is gone after config {first if n == second else second} was inspected and computed'
+        if obs['runs_total'] != 2:
+            return (f'{case}: requesting both results again in new chains ran the task {obs["runs_total"] - 2} more time(s): '
+                    f'at most once per storage location')
+        return None
+
+    def nontrivial(self, case, obs):
+        return True
+
+    def key(self, case):
+        return repr(case)
+
+
+class SharedRegistry(Suite):
+    """chains built one after the other over one registry of task objects (Chain(config, shared_tasks=registry), the
+    mechanism behind MultiChain): a task computed through the first chain - kept in memory only, or persisted - is not
+    run again when a later chain that contains the same computation is built and asked.  Runtime check only."""
+    name = 'chains_sharing_a_registry'
+    model = ''
+
+    def gen(self, rng, tier):
+        return [dict(data=d, n=n, same=s) for d in ('memory', 'json') for n in (2, 3) for s in (True, False)]
+
+    def run_impl(self, case):
+        from pathlib import Path
+        from taskchain import Config, Chain
+        from .. import pipeline as pl
+        from ..suites_chain import K, P
+        classes = [dict(K(0, 'Src', data=case['data']), name='src'),
+                   dict(K(1, 'Mid', meta_inputs=[{'cls': 0}], data=case['data']), name='mid'),
+                   dict(K(2, 'Top', meta_inputs=[{'cls': 1}], params=[P('k')], data=case['data']), name='top')]
+        with pl.workspace(dict(classes=classes, files={})) as (d, mod):
+            registry = {}
+            out = []
+            for i in range(case['n']):
+                cfg = Config(Path('data'), name=f'c{i}', data={'tasks': [f'{mod}.*'], 'k': 0 if case['same'] else i})
+                ch = Chain(cfg, shared_tasks=registry)
+                before = pl.runs_started()
+                vals = {n: pl.to_spec(t.value) for n, t in ch.tasks.items()}
+                out.append(dict(ran=pl.runs_started() - before, vals=vals, ids={n: id(t) for n, t in ch.tasks.items()}))
+            return dict(rounds=out)
+
+    def oracle(self, case, obs):
+        if 'unexpected_exception' in obs:
+            return f'unexpected exception {obs["unexpected_exception"]}: {obs["text"]}'
+        want = [3] + [0 if case['same'] else 1] * (case['n'] - 1)
+        got = [r['ran'] for r in obs['rounds']]
+        if got != want:
+            return (f'{case}: the chains built over one registry ran {got} tasks; src and mid (and top when k is equal) are the '
+                    f'same computations in every chain, expected {want}')
+        for r in obs['rounds'][1:]:
+            for n in ('src', 'mid'):
+                if repr(r['vals'][n]) != repr(obs['rounds'][0]['vals'][n]):
+                    return f'{case}: {n} yields another value in a later chain'
+        return None
+
+    def nontrivial(self, case, obs):
+        return True
+
+    def key(self, case):
+        return repr(case)
+
+
 class C04(Prop):
     pid = 'C04'
-    suites = [Plain(), Mixed(), DataKinds(), ReadableLinks(), OnDemandInputs()]
+    suites = [Plain(), Mixed(), DataKinds(), ReadableLinks(), OnDemandInputs(), NameModeNeighbours(), SharedRegistry()]
     assumptions = ['one-shot data classes (JSON, in-memory); resumable ContinuesData is re-run by design until finished()']
 
 
